@@ -215,7 +215,26 @@ def run(ctx):
                         witness = "delegated to str::parse (rejects empty input)"
                 # delegation of a piece of the field to a sub-stage that succeeded (the sub-stage is held to this rule itself)
                 subs = sym.subterms(e, lambda y: y[0] == "call" and y[1] in stages and y[1] != st)
-                if subs and isinstance(v, int) and v == 0 and any(sym.contains(a_, lambda z: z == sparam) for a_ in subs[0][2]):
+
+                def of_field(a_):
+                    """the argument is (a piece of) the stage's own text: named directly, or pulled by hand from a split
+                    iterator over it that is kept in a local"""
+                    if sym.contains(a_, lambda z: z == sparam):
+                        return True
+                    for pull in sym.subterms(a_, lambda z: z[0] == "call" and z[1].endswith("Iterator>::next") and "Split<" in z[1] and z[2] and z[2][0][0] == "ptr"):
+                        # what the local held when it was pulled (through earlier pulls of the same iterator)
+                        held = None
+                        for ev_ in p.events:
+                            if ev_.kind == "call" and ev_.ret == pull:
+                                held = (ev_.extra.get("pointees") or {}).get(0)
+                        for _ in range(64):
+                            if held is None or held[0] != "post" or not (0 <= held[2] < len(p.events)):
+                                break
+                            held = (p.events[held[2]].extra.get("pointees") or {}).get(held[3])
+                        if held is not None and held[0] == "call" and held[1] in ("str::split", "str::rsplit") and held[2][0] == sparam:
+                            return True
+                    return False
+                if subs and isinstance(v, int) and v == 0 and any(of_field(a_) for a_ in subs[0][2]):
                     witness = "delegated a piece of the field to %s" % subs[0][1].rsplit("::", 1)[-1]
             if witness is None:
                 # the same delegation, however the result's variant was tested (`match`, `== 0`, `.ok()?`, ...)
@@ -247,8 +266,48 @@ def run(ctx):
                 oks2 = [p_ for p_ in sp2 if g.path_succeeds(s2, p_)[0]]
                 if oks2:
                     sub_guards += min(len(guards8(p_)) for p_ in oks2)
+            # the rows counted against a constant list of eight: a loop over a constant array of exactly 8 elements that
+            # pulls one row (required to be there) per iteration from a split iterator nothing else touches, and after
+            # the loop requires that iterator to be exhausted -- exactly 8 rows
+            lock = 0
+            ps_plain = sym.SymExec(f, sb, max_paths=200000).run()
+            for p_ in ps_plain:
+                if not g.path_succeeds(st, p_)[0]:
+                    continue
+                for (fid_, hdr_), snap_ in p_.pre_loop.items():
+                    if fid_ != 0:
+                        continue
+                    arrs = [v_ for (nm_, pth_), v_ in snap_.items() if nm_ != "_fn" and v_ is not None and v_[0] == "iter"]
+                    n8 = False
+                    for v_ in arrs:
+                        a_ = v_[1]
+                        while a_[0] in ("ref", "iter"):
+                            a_ = a_[1]
+                        n8 = n8 or (a_[0] == "array" and len(a_[1]) == 8)
+                    rows = [nm_ for (nm_, pth_), v_ in snap_.items() if nm_ != "_fn" and not pth_ and v_ is not None and v_[0] == "call" and v_[1] in ("str::split", "str::rsplit") and v_[2][0] == sparam]
+                    if not n8 or len(rows) != 1:
+                        continue
+                    li_ = [i_ for i_ in range(len(sb.locals)) if sb.local_name(i_) == rows[0]]
+
+                    def pulls_of(path):
+                        return [ev_ for ev_ in path.events if ev_.kind == "call" and ev_.name.endswith("Iterator>::next") and "Split<" in ev_.name and
+                                ev_.args and ev_.args[0][0] == "ptr" and ev_.args[0][1] == ("L", 0, li_[0])]
+
+                    def decided(path, ev_):
+                        return [c_[1] for c_ in path.conds if c_[0] == ("discr", ev_.ret) and isinstance(c_[1], int)]
+                    okl = len(li_) == 1
+                    for q in ps_plain:
+                        if (0, hdr_) not in q.pre_loop:
+                            continue
+                        pl_ = pulls_of(q)
+                        if q.end == "loopback" and q.end_loop == (0, hdr_):
+                            okl = okl and len(pl_) == 1 and decided(q, pl_[0]) == [1]
+                        elif g.path_succeeds(st, q)[0]:
+                            okl = okl and len(pl_) == 1 and decided(q, pl_[0]) == [0]
+                    if okl:
+                        lock = 1
             for p in okp:
-                eq8 = guards8(p) + [("delegated",)] * sub_guards
+                eq8 = guards8(p) + [("delegated",)] * sub_guards + [("eight rows pulled in step with a constant list of eight, then none left",)] * lock
                 if False:
                     pass
                 # classify counters by the loop that carries them
